@@ -210,7 +210,7 @@ func ruleInc1(c *Ctx) []*Ob {
 			}
 			provOf := func(base ssa.Value) ([]prov, string) {
 				var ps []prov
-				for _, og := range origins(base) {
+				for _, og := range originsDeep(c, base) {
 					if isNilConst(og) {
 						continue
 					}
@@ -218,7 +218,10 @@ func ruleInc1(c *Ctx) []*Ob {
 					if !ok {
 						return nil, accessPath(og)
 					}
-					ps = append(ps, prov{m, k})
+					// a key that is a helper's parameter stands for the caller's argument
+					for _, kk := range originsDeep(c, k) {
+						ps = append(ps, prov{m, kk})
+					}
 				}
 				return ps, ""
 			}
@@ -637,7 +640,7 @@ func ruleInc4(c *Ctx) []*Ob {
 			arg := ci.Common().Args[baseIdx]
 			fromBase := false
 			var leafs []string
-			for _, og := range origins(arg) {
+			for _, og := range originsDeepIn(c, arg, f) {
 				if isNilConst(og) {
 					leafs = append(leafs, "nil")
 					continue
@@ -658,8 +661,12 @@ func ruleInc4(c *Ctx) []*Ob {
 					}
 				}
 				if lk != nil {
-					if _, b := loadedField(lk); b != nil && sameValue(b, baseParam) {
-						fromBase = true
+					if _, b := loadedField(lk); b != nil {
+						for _, bo := range originsDeepIn(c, b, f) {
+							if bo == ssa.Value(baseParam) {
+								fromBase = true
+							}
+						}
 					}
 				}
 			}
